@@ -130,7 +130,24 @@ pub open spec fn badge_ok(a: BadgeAccount<'_>, config: Pubkey, mint: Pubkey) -> 
 
 // ------------------------------------------------------------------ the raw TLV scan (C19): which extension types a mint's TLV area holds
 //@ assume TLV-scan shims: read_u16_le_from_slice (u16::from_le_bytes of a two-byte slice) and TokenExtensionType::try_from(u16) (TryFromPrimitive derive: the variant with that discriminant, error for an unknown number) are external stubs with exactly these contracts; ProgramError is reduced to one value
-pub uninterp spec fn ext_of_num(n: u16) -> Option<TokenExtensionType>;
+//@ discriminants util/v2/token.rs TokenExtensionType ext_of_num u16
+/// the wire numbering of Token-2022's ExtensionType (program/src/extension/mod.rs, v8/v9), written down independently of the repository's clone of that enum
+pub open spec fn spl_number(t: TokenExtensionType) -> u16 {
+    match t {
+        TokenExtensionType::Uninitialized => 0, TokenExtensionType::TransferFeeConfig => 1, TokenExtensionType::TransferFeeAmount => 2, TokenExtensionType::MintCloseAuthority => 3,
+        TokenExtensionType::ConfidentialTransferMint => 4, TokenExtensionType::ConfidentialTransferAccount => 5, TokenExtensionType::DefaultAccountState => 6, TokenExtensionType::ImmutableOwner => 7,
+        TokenExtensionType::MemoTransfer => 8, TokenExtensionType::NonTransferable => 9, TokenExtensionType::InterestBearingConfig => 10, TokenExtensionType::CpiGuard => 11,
+        TokenExtensionType::PermanentDelegate => 12, TokenExtensionType::NonTransferableAccount => 13, TokenExtensionType::TransferHook => 14, TokenExtensionType::TransferHookAccount => 15,
+        TokenExtensionType::ConfidentialTransferFeeConfig => 16, TokenExtensionType::ConfidentialTransferFeeAmount => 17, TokenExtensionType::MetadataPointer => 18, TokenExtensionType::TokenMetadata => 19,
+        TokenExtensionType::GroupPointer => 20, TokenExtensionType::TokenGroup => 21, TokenExtensionType::GroupMemberPointer => 22, TokenExtensionType::TokenGroupMember => 23,
+        TokenExtensionType::ConfidentialMintBurn => 24, TokenExtensionType::ScaledUiAmount => 25, TokenExtensionType::Pausable => 26, TokenExtensionType::PausableAccount => 27,
+    }
+}
+/// C19: the clone decodes every type number to the extension Token-2022 means by it, and knows no other number
+pub proof fn lemma_extension_numbers()
+    ensures forall|n: u16| (match #[trigger] ext_of_num(n) { Some(t) => spl_number(t) == n, None => n > 27 }),
+{
+}
 pub open spec fn le16(d: Seq<u8>, i: int) -> u16 { (d[i] as int + 256 * d[i + 1] as int) as u16 }
 pub struct ProgramErrorShim {}
 #[verifier::external_body]
